@@ -57,7 +57,7 @@ theorem mass_iff_integral (p : SedovShock.P) (k : ℕ) (A : Admissible p k) (g :
   have hk1 : k - 1 + 1 = k := by rcases A.hk with h | h | h <;> omega
   have hk1r : ((k - 1 : ℕ) : ℝ) + 1 = (k : ℝ) := by exact_mod_cast hk1
   have hrho2 : SedovShock.rho2 p t = (p.gamma + 1) / (p.gamma - 1) * (p.rho0 * SedovShock.r2 p t ^ (-p.omega)) := by
-    simp only [epv_tree, epv_cond, not_le.mpr ht, if_false, epv_leaf]
+    epv_semi_tree
   unfold MassConserved massBehind density ambientDensity
   rw [hrho2]
   have hamb := integral_ambient p.rho0 p.omega (SedovShock.r2 p t) (k - 1) hRpos (by rw [hk1r]; exact A.omegak)
